@@ -1,6 +1,12 @@
 """C02 RBAC decision = declared semantics (engine M). Matchers and the three-way decision are checked against the
 reference of the property statement; flattening (from_authorization_item) is checked structurally (see check_flatten)."""
 from mcommon import *
+
+
+def implied(r, cond):
+    rs, _m, _dt, _zm = check_sat(r.pc + [z3.Not(cond)])
+    return rs == "unsat"
+
 import smtstr
 
 LOWER = re.compile(r"(str::to_lowercase|String::to_lowercase|to_ascii_lowercase)$")
@@ -431,6 +437,19 @@ def check_decision(rep, ctx):
             rep.add(Query("is_allowed path %d: decision differs from the declared semantics" % i, "violated",
                           "events: %s; model %s" % ([e.callee.split("::")[-2] for e in pm + im], bad[0]), bad[1], "mirsym+z3", key="C02.decision", model=bad[0], reproduced=None,
                           replay=save_replay("C02", "decision_path%d.json" % i, json.dumps({"model": bad[0], "decisions": r.decisions}, indent=1))))
+        # every privilege the iteration yields is put to the URL test: "some privilege matches the URL" ranges over ALL defined privileges,
+        # also those nobody is assigned to (such a match still turns the default into a deny)
+        pnx = [e for e in r.events if e.kind == "call" and re.search(r"hash_map::Values<.*> as Iterator>::next$|Values.*::next$", e.callee)]
+        for k, e in enumerate(pnx):
+            if not (implied(r, e.ret.discr() == 1)):
+                continue
+            end = r.events.index(pnx[k + 1]) if k + 1 < len(pnx) else len(r.events)
+            tested = [m for m in pm if r.events.index(e) < r.events.index(m) < end and (is_part_of(origin(m.rargs[0]), e.ret) or same_origin(m.rargs[0], e.ret.child(("v", "Some", 0))))]
+            if not tested:
+                rep.add(Query("is_allowed path %d: every privilege yielded by the iteration is tested against the URL before the next one" % i, "violated", "privilege %d of the iteration is skipped without is_match" % k, 0, "mirsym+z3",
+                              key="C02.decision.every-privilege-tested", reproduced=None))
+            elif tested:
+                rep.add(Query("is_allowed path %d: every privilege yielded by the iteration is tested against the URL before the next one" % i, "holds", "", 0, "mirsym+z3", key="C02.decision.every-privilege-tested"))
         # every identity consulted is the one NAMED by an assignment of the matched privilege and DEFINED in identities
         for e in im:
             idv = origin(e.rargs[0])
